@@ -38,6 +38,10 @@ FACT = {
 }
 INIT = {'factor_update_steps': 2, 'inv_update_steps': 3, 'damping': 1 / 16,
         'factor_decay': 0.5, 'kl_clip': 1 / 1024, 'lr': 0.125}
+# integral initial values: python ints for the float parameters, python
+# floats for the intervals
+INIT_INT = {'factor_update_steps': 2.0, 'inv_update_steps': 3.0, 'damping': 1,
+            'factor_decay': 1, 'kl_clip': 2, 'lr': 1}
 FN = {'damping': lambda s: 0.01 * (s + 1), 'lr': lambda s: 0.1,
       'inv_update_steps': lambda s: 2}
 
@@ -47,7 +51,8 @@ def replay_one(d: dict[str, Any]) -> str | None:
     from kfac.scheduler import LambdaParamScheduler
 
     model = torch.nn.Sequential(torch.nn.ReLU())   # nothing to register
-    kw = {p: (FN[p] if p in d['fn'] else INIT[p]) for p in PARAMS}
+    init = INIT_INT if d.get('mode') == 'int' else INIT
+    kw = {p: (FN[p] if p in d['fn'] else init[p]) for p in PARAMS}
     with warnings.catch_warnings():
         warnings.simplefilter('ignore')
         pre = KFACPreconditioner(model, **kw)
@@ -73,12 +78,24 @@ def replay_one(d: dict[str, Any]) -> str | None:
             want = Fraction(rec['val'][p][0], rec['val'][p][1])
             got = getattr(pre, p)
             if p in ('factor_update_steps', 'inv_update_steps') and \
-                    not isinstance(got, int):
+                    not isinstance(got, int) and (
+                        d.get('mode') != 'int' or i >= first_sched(d, p)):
                 return f'op {i}: {p} is {type(got).__name__}, not int'
             if Fraction(got) != want:
                 return (f'op {i} ({rec["act"]} {rec["arg"]}): {p}={got} '
                         f'spec {float(want)}')
     return None
+
+
+def first_sched(d: dict[str, Any], p: str) -> int:
+    """Index of the first scheduler step (from then on an interval that is
+    scheduled has been truncated to int)."""
+    if p not in d['scheduled']:
+        return 10 ** 9
+    for i, rec in enumerate(d['h']):
+        if rec['act'] == 'sched':
+            return i
+    return 10 ** 9
 
 
 def chunk(ds: list[dict]) -> list[tuple[str, dict]]:
@@ -98,7 +115,8 @@ def main(tier: str, seed: int) -> int:
     defs = (f'MaxDepth == {depth}\nArgs == {tla(set(args))}\nMaxK == 64\n'
             'Caps == {' + ', '.join(f'<<{a}, {b}>>' for a, b in caps) + '}\n')
     name = 'MC_Sched'
-    mod = instantiate('Sched', name, defs)
+    mod_int = instantiate('Sched', name, defs + 'InitMode == "int"\n')
+    mod = instantiate('Sched', name, defs + 'InitMode == "frac"\n')
     base = ('SPECIFICATION Spec\nINVARIANT IntervalsAreInts\n'
             'INVARIANT FnParamsNeverScheduled\n'
             'PROPERTY UnscheduledUnchanged\nPROPERTY OnlySchedMoves\n')
@@ -108,20 +126,25 @@ def main(tier: str, seed: int) -> int:
     r2 = run_tlc(name, cfg_text='SPECIFICATION Spec\nCONSTRAINT EmitDone\n'
                  'CHECK_DEADLOCK FALSE\n', extra_modules={name: mod},
                  workers=8, deadlock=False, timeout=1800)
-    for r in (r1, r2):
+    r3 = run_tlc(name, cfg_text='SPECIFICATION Spec\nCONSTRAINT EmitDone\n'
+                 'CHECK_DEADLOCK FALSE\n', extra_modules={name: mod_int},
+                 workers=8, deadlock=False, timeout=1800)
+    for r in (r1, r2, r3):
         if not r.ok:
             v.violation(f'TLC: {r.violated} on spec/Sched.tla\n'
                         f'{r.error_text[:800]}',
                         {'kind': 'spec', 'inv': str(r.violated)})
     ds = []
-    for line in r2.stdout.splitlines():
-        if line.startswith('"{'):
-            try:
-                d = json.loads(json.loads(line))
-            except Exception:  # noqa: BLE001
-                continue
-            if 'h' in d:
-                ds.append(d)
+    for rr, mode in ((r2, 'frac'), (r3, 'int')):
+        for line in rr.stdout.splitlines():
+            if line.startswith('"{'):
+                try:
+                    d = json.loads(json.loads(line))
+                except Exception:  # noqa: BLE001
+                    continue
+                if 'h' in d:
+                    d['mode'] = mode
+                    ds.append(d)
     n = 48
     res = pmap(chunk, [ds[i::n] for i in range(n) if ds[i::n]])
     for lst in res:
@@ -170,8 +193,8 @@ def main(tier: str, seed: int) -> int:
     nontriv = {chash(d) for d in ds if not d['refused']
                and sum(x['act'] == 'sched' for x in d['h']) >= 2}
     v.coverage = {
-        'states': max(r1.distinct + r2.distinct, 1),
-        'transitions': max(r1.generated + r2.generated, 1),
+        'states': max(r1.distinct + r2.distinct + r3.distinct, 1),
+        'transitions': max(r1.generated + r2.generated + r3.generated, 1),
         'traces_validated_against_impl': len(ds),
         'samples': [ds[len(ds) // 2]] if ds else ['none'],
         'evaluations': len(ds) + nexp,
